@@ -61,6 +61,14 @@ def _calls_of(f, cfg, cg, key):
     return out
 
 
+def _cannot_fail(v, module) -> bool:
+    if isinstance(v, ast.Constant):
+        return True
+    if isinstance(v, ast.Attribute) and isinstance(v.value, ast.Name) and v.value.id in module.imports and module.imports[v.value.id][1] is None:
+        return True
+    return False
+
+
 def compute_before_open(repo: Repo, rep):
     rep.rule(
         "R-COMPUTE-BEFORE-OPEN",
@@ -102,7 +110,8 @@ def compute_before_open(repo: Repo, rep):
                     if isinstance(cc.func, ast.Attribute) and cc.func.attr in ("write", "writelines") and cc.args:
                         for nm in {x.id for x in ast.walk(cc.args[0]) if isinstance(x, ast.Name)}:
                             ds = reaching_defs(cfg, n, nm)
-                            if any(d in after for d in ds):
+                            # a definition that cannot fail (a constant, an attribute of an imported module: `prefix = codecs.BOM_UTF8`) is no computation
+                            if any(d in after and not _cannot_fail(def_value(d, nm), f.module) for d in ds):
                                 rep.violation("R-COMPUTE-BEFORE-OPEN", f, cc, f"the written value `{nm}` is computed after the file was opened for writing", construct=f"late:{nm}")
                                 bad = True
             if not bad:
